@@ -116,18 +116,16 @@ PENDING = {}
 # on every run (DESIGN.md §13); must match TIE_TOPICS in ./check
 TIE = {
     "C01": "frame.rs encoder (checksum, payload, to_bytes, to_bytes_with_newline compiled statement by statement; Data::try_new bound and the regular expression text as templates)",
-    "C02": "frame.rs encoder and the decoder's regular expression text (template)",
-    "C03": "frame.rs encoder and the decoder's regular expression text (template)",
+    "C02": "frame.rs: the decoder after the regular expression (length test, Data::try_new, checksum test and their errors, compiled statement by statement) and the regular expression text (template)",
+    "C03": "frame.rs: the decoder after the regular expression (length test, Data::try_new, checksum test and their errors, compiled statement by statement) and the regular expression text (template)",
     "C06": "every method of impl Page (page.rs) compiled statement by statement",
     "C07": "every method of impl Page (page.rs) compiled statement by statement",
-    "C15": "frame.rs encoder (the bytes Frame::write delivers)",
     "C04": "message.rs code tables (both directions)", "C05": "message.rs code tables (both directions)",
     "C19": "sign_type.rs from_bytes / dimensions / to_bytes tables and the virtual sign's configuration digest",
     "C16": "response_expected", "C18": "delay_after_send / delay_after_receive", "C20": "configure_port setters and the two constructor timeouts",
-    "C12": "VirtualSign dispatch and per-handler state tables, and every method of impl VirtualSign compiled statement by statement into a state-passing function (processMessage = vstep, bus loop = busStep)", "C13": "VirtualSign dispatch and per-handler state tables, and every method of impl VirtualSign compiled statement by statement into a state-passing function (processMessage = vstep, bus loop = busStep)",
-    "C14": "VirtualSign dispatch and per-handler state tables, and every method of impl VirtualSign compiled statement by statement into a state-passing function (processMessage = vstep, bus loop = busStep)",
-    "C17": "message.rs code tables, the serial classification tables and the controller (src/sign.rs compiled statement by statement into an interaction tree)",
-    "C08": "the controller (src/sign.rs compiled statement by statement into an interaction tree) and the VirtualSign tables",
+    "C12": "VirtualSign dispatch and per-handler state tables",
+    "C13": "VirtualSign dispatch and per-handler state tables, and every method of impl VirtualSign compiled statement by statement into a state-passing function (processMessage = vstep, bus loop = busStep)",
+    "C14": "VirtualSign dispatch and per-handler state tables",
     "C09": "the controller (src/sign.rs compiled statement by statement into an interaction tree)",
     "C10": "the controller (src/sign.rs compiled statement by statement into an interaction tree)",
     "C11": "the controller (src/sign.rs compiled statement by statement into an interaction tree)",
